@@ -614,3 +614,67 @@ package tds
 //@   requires [no-alias] forall j int :: 0 <= j && j < len(queue.queue) ==> arr(queue.queue[j].Data) != arr(p)
 //@   modifies queue.queue, queue.indexPacket, queue.indexData, queue.$w, queue.$out, all Packet.Data, all Packet.Header, all elems *tds.Packet, all elems byte, all Packet.$pos
 //@   ensures [all-written] err == nil && n == len(p) && queue.$w == old(queue.$w) + len(p)
+
+//@ # ---------------------------------------------------------------------
+//@ # Packet sender (C01). Transport ghosts: $wire/$wlen of the io.Writer (see io.spec).
+//@ # Channel.$open: the last packet written for this channel did not carry the
+//@ # end-of-message flag (a message is open on the wire).
+//@ ghost field Channel.$open bool
+//@ pred hdrat(w io.Writer, o int, msgType int, status int, length int, channel int, nr int, window int) { w.$wire[o] == msgType && w.$wire[o+1] == status && w.$wire[o+2] == length / 256 && w.$wire[o+3] == length % 256 && w.$wire[o+4] == channel / 256 && w.$wire[o+5] == channel % 256 && w.$wire[o+6] == nr && w.$wire[o+7] == window }
+//@ func (PacketHeader).Read returns (n, err)
+//@   modifies elems(bs)
+//@   ensures [n8] err == nil ==> n == 8 && len(bs) == 8
+//@   ensures [ok] len(bs) == 8 ==> err == nil
+//@   ensures [layout0] err == nil ==> bs[0] == header.MsgType
+//@   ensures [layout1] err == nil ==> bs[1] == header.Status
+//@   ensures [layout2] err == nil ==> bs[2] == header.Length / 256
+//@   ensures [layout3] err == nil ==> bs[3] == header.Length % 256
+//@   ensures [layout4] err == nil ==> bs[4] == header.Channel / 256
+//@   ensures [layout5] err == nil ==> bs[5] == header.Channel % 256
+//@   ensures [layout6] err == nil ==> bs[6] == header.PacketNr
+//@   ensures [layout7] err == nil ==> bs[7] == header.Window
+//@ func (Packet).Bytes returns (bs, err)
+//@   requires [wire-length] packet.Header.Length == 8 + len(packet.Data)
+//@   modifies
+//@   ensures [ok] err == nil && bs != nil && fresh(bs) && len(bs) == packet.Header.Length
+//@   ensures [header] bs[0] == packet.Header.MsgType && bs[1] == packet.Header.Status && bs[2] == packet.Header.Length / 256 && bs[3] == packet.Header.Length % 256 && bs[4] == packet.Header.Channel / 256 && bs[5] == packet.Header.Channel % 256 && bs[6] == packet.Header.PacketNr && bs[7] == packet.Header.Window
+//@   ensures [body] forall j int :: 8 <= j && j < len(bs) ==> bs[j] == packet.Data[j - 8]
+//@ func (Packet).WriteTo returns (n, err)
+//@   requires [wire-length] packet.Header.Length == 8 + len(packet.Data)
+//@   requires [writer] nonnil(writer)
+//@   modifies writer.$wire, writer.$wlen
+//@   ensures [n-range] 0 <= n && n <= packet.Header.Length
+//@   ensures [appended] writer.$wlen == old(writer.$wlen) + n
+//@   ensures [all-or-error] err == nil ==> n == packet.Header.Length
+//@   ensures [header] err == nil ==> hdrat(writer, old(writer.$wlen), packet.Header.MsgType, packet.Header.Status, packet.Header.Length, packet.Header.Channel, packet.Header.PacketNr, packet.Header.Window)
+//@   ensures [body] err == nil ==> (forall j int :: 8 <= j && j < packet.Header.Length ==> writer.$wire[old(writer.$wlen) + j] == packet.Data[j - 8])
+//@   ensures [prefix-kept] forall k int :: 0 <= k && k < old(writer.$wlen) ==> writer.$wire[k] == old(writer.$wire[k])
+//@ # Conn / Channel wiring (established by NewConn / NewChannel; NewConn is network and TLS
+//@ # code outside the verified subset, so [wired] of Conn is assumed at its uses).
+//@ typeinv Conn { [wired] nonnil(this.conn) && this.info != nil && nonnil(this.ctx) }
+//@ typeinv Conn { [packet-size] 8 < this.packetSize && this.packetSize <= 65535 }
+//@ typeinv Channel { [wired] this.tdsConn != nil && this.queueTx != nil && this.queueRx != nil && this.queueTx != this.queueRx }
+//@ typeinv Channel { [tx-queue] this.queueTx.$writable && chwf(this.queueTx) }
+//@ typeinv Channel { [channel-id] 0 <= this.channelId && this.channelId <= 65535 }
+//@ func (*Conn).PacketSize returns (r) inline
+//@ func (*Conn).PacketBodySize returns (r) inline
+//@ func (*Channel).sendPacket returns (err)
+//@   requires [packet] packet != nil
+//@   requires [wire-length] packet.Header.Length == 8 + len(packet.Data)
+//@   modifies packet.Header, tdsChan.curPacketNr, tdsChan.$open, tdsChan.tdsConn.conn.$wire, tdsChan.tdsConn.conn.$wlen
+//@   ghost-update at after (tds.Packet).WriteTo#1: tdsChan.$open := (packet.Header.Status % 2) == 0
+//@   ensures [type] packet.Header.MsgType == tdsChan.CurrentHeaderType
+//@   ensures [channel] tdsChan.channelId > 0 ==> packet.Header.Channel == tdsChan.channelId
+//@   ensures [channel0] tdsChan.channelId == 0 ==> packet.Header.Channel == old(packet.Header.Channel)
+//@   ensures [length-kept] packet.Header.Length == old(packet.Header.Length)
+//@   ensures [eom-iff-short] (packet.Header.Status % 2 == 1) == (old(packet.Header.Status % 2 == 1) || len(packet.Data) != tdsChan.tdsConn.packetSize - 8)
+//@   ensures [open] err == nil ==> tdsChan.$open == (packet.Header.Status % 2 == 0)
+//@   ensures [written] err == nil ==> tdsChan.tdsConn.conn.$wlen == old(tdsChan.tdsConn.conn.$wlen) + packet.Header.Length
+//@   ensures [header] err == nil ==> hdrat(tdsChan.tdsConn.conn, old(tdsChan.tdsConn.conn.$wlen), packet.Header.MsgType, packet.Header.Status, packet.Header.Length, packet.Header.Channel, packet.Header.PacketNr, packet.Header.Window)
+//@   ensures [body] err == nil ==> (forall j int :: 8 <= j && j < packet.Header.Length ==> tdsChan.tdsConn.conn.$wire[old(tdsChan.tdsConn.conn.$wlen) + j] == packet.Data[j - 8])
+//@   ensures [prefix-kept] forall k int :: 0 <= k && k < old(tdsChan.tdsConn.conn.$wlen) ==> tdsChan.tdsConn.conn.$wire[k] == old(tdsChan.tdsConn.conn.$wire[k])
+//@ func (*Channel).sendPackets returns (err)
+//@   requires [ctx] nonnil(ctx)
+//@   modifies all Packet.Header, all Packet.Data, tdsChan.curPacketNr, tdsChan.$open, tdsChan.tdsConn.conn.$wire, tdsChan.tdsConn.conn.$wlen, tdsChan.queueTx.queue, tdsChan.queueTx.indexPacket, tdsChan.queueTx.indexData
+//@   ensures [eom-last] !onlyFull && err == nil ==> !tdsChan.$open
+//@   ensures [prefix-kept] forall k int :: 0 <= k && k < old(tdsChan.tdsConn.conn.$wlen) ==> tdsChan.tdsConn.conn.$wire[k] == old(tdsChan.tdsConn.conn.$wire[k])
